@@ -16,6 +16,7 @@ func init() {
 	vrt.Register("C08_maps", Maps)
 	vrt.Register("C08_nested", Nested)
 	vrt.Register("C08_nil_elements", NilElements)
+	vrt.Register("C08_tolerated_faults_in_body", ToleratedFaultsInBody)
 }
 
 func maxLen() int { return 2 + 2*vrt.Tier() }
@@ -120,10 +121,14 @@ func Bodies() {
 	ctx.Set("xs", xs)
 	ctx.Set("t", t)
 	ctx.Set("same", func(v []int) []int { return v })
-	// the iterable written as a variable or as a call in the loop header
+	// the iterable written as a variable, as a call in the loop header, or as a user iterator over the same elements
 	iter := "xs"
-	if vrt.Bool() {
+	switch vrt.Choice(3) {
+	case 1:
 		iter = "same(xs)"
+	case 2:
+		iter = "it"
+		ctx.Set("it", &sliceIter{xs: xs})
 	}
 	var in, want string
 	bi := vrt.Choice(len(bodies) + len(codeBodies))
@@ -142,6 +147,20 @@ func Bodies() {
 	vrt.Assert(err == nil, "a loop with break/continue anywhere in its body renders")
 	vrt.Assert(got == want, "loop output equals the unrolled body (break ends the loop, continue the iteration, both keep what the iteration produced)")
 	vrt.Cover("done")
+}
+
+// sliceIter yields the elements of a slice through the Iterator protocol
+type sliceIter struct {
+	xs []int
+	i  int
+}
+
+func (s *sliceIter) Next() interface{} {
+	if s.i >= len(s.xs) {
+		return nil
+	}
+	s.i++
+	return s.xs[s.i-1]
 }
 
 // ---- iterable kinds
@@ -417,5 +436,41 @@ func NilElements() {
 	vrt.Note("got", got)
 	vrt.Assert(err == nil, "a loop over nil elements renders")
 	vrt.Assert(got == want, "the loop variables are bound to each element in turn, nil elements included")
+	vrt.Cover("done")
+}
+
+type person struct{ Nick string }
+
+// a condition in the body that fails on a nil entry / unknown identifier (tolerated,
+// falsy) does not disturb the loop: later iterations still see their own key and value
+func ToleratedFaultsInBody() {
+	L := vrt.IntRange(1, 3)
+	xs := make([]int, L)
+	for i := range xs {
+		xs[i] = vrt.Int()
+	}
+	ctx := plush.NewContext()
+	ctx.Set("xs", xs)
+	ctx.Set("extra", []interface{}{person{"a"}, nil, person{"c"}})
+	ctx.Set("em", map[string]interface{}{"k": nil})
+	conds := []string{"extra[i].Nick", "extra[1].Nick", "em[\"k\"].Nick", "nope.Nick", "nope"}
+	c := conds[vrt.Choice(len(conds))]
+	in := "[<%= for (i, v) in xs { %><%= if (" + c + ") { %>y<% } else { %>n<% } %><%= i %>=<%= v %>,<% } %>]"
+	want := "["
+	for i, v := range xs {
+		yn := "n"
+		if c == "extra[i].Nick" {
+			if i != 1 {
+				yn = "y"
+			}
+		}
+		want += yn + itoa(i) + "=" + itoa(v) + ","
+	}
+	want += "]"
+	vrt.Note("input", in)
+	got, err := plush.Render(in, ctx)
+	vrt.Note("got", got)
+	vrt.Assert(err == nil, "a loop whose body contains a tolerated faulty condition renders")
+	vrt.Assert(got == want, "every iteration sees its own key and value after a tolerated fault in an earlier iteration")
 	vrt.Cover("done")
 }
